@@ -19,7 +19,7 @@ import explore
 import obs
 import term
 from build import BUILD
-from explore import Problem, ViolationError
+from explore import Problem, ViolationError, Violation
 from lattice import classify_style, base_opts, build_args
 
 PROP = "C16"
@@ -271,6 +271,77 @@ def run_task(task):
 
 
 # ---------------------------------------------------------------------------------------------
+# E2: a match that spans several lines (`rg -U --json`) is one record; every line of it is a hit
+
+ML_CODES = ["fn main() {", "\tmain()", "x", "", "main main", "  y\u6f22 main"]
+
+
+def rg_record(typ, path, number, text, subs):
+    d = {"type": typ, "data": {"path": {"text": path}, "lines": {"text": text}, "line_number": number,
+                               "absolute_offset": 0,
+                               "submatches": [{"match": {"text": text.encode("utf-8")[a:b].decode("utf-8", "replace")},
+                                               "start": a, "end": b} for a, b in subs]}}
+    return json.dumps(d, ensure_ascii=False).encode("utf-8") + b"\n"
+
+
+def run_multiline(task):
+    """law: a record whose text holds k lines is rendered exactly like k records of one line each (line numbers
+    counted on, every submatch cut at the line ends); nl in {LF, CRLF}; submatches: every 'main', or one range from
+    the middle of the first line to the middle of the last"""
+    label, ov, ks, deadline = task
+    opts = dict(ov)
+    opts["tabs"] = str(TABS)
+    args = build_args(base_opts(opts))
+    drv = explore.get_driver(caller=None)
+    cid = drv.mkconfig(args)
+    viols = []
+    n = 0
+    outs = set()
+    for k in ks:
+        for codes in itertools.product(ML_CODES, repeat=k):
+            for nl in ("\n", "\r\n"):
+                for span in (False, True):
+                    if time.time() > deadline:
+                        break
+                    text = "".join(c + nl for c in codes)
+                    lens = [len(c.encode("utf-8")) for c in codes]
+                    starts = [sum(lens[:i]) + i * len(nl) for i in range(k)]
+                    if span:
+                        a = starts[0] + lens[0] // 2
+                        b = starts[-1] + (lens[-1] + 1) // 2
+                        subs = [(a, b)] if a < b else []
+                    else:
+                        subs = []
+                        tb = text.encode("utf-8")
+                        i = tb.find(b"main")
+                        while i >= 0:
+                            subs.append((i, i + 4))
+                            i = tb.find(b"main", i + 4)
+                    multi = rg_record("match", "src/a.rs", 7, text, subs)
+                    single = b""
+                    for i, c in enumerate(codes):
+                        lo, hi = starts[i], starts[i] + lens[i]
+                        cut = [(max(x, lo) - lo, min(y, hi) - lo) for x, y in subs if max(x, lo) < min(y, hi)]
+                        single += rg_record("match", "src/a.rs", 7 + i, c + "\n", cut)
+                    tail = rg_record("context", "src/a.rs", 7 + k, "after\n", [])
+                    r1, r2 = drv.render(cid, [multi + tail, single + tail])
+                    n += 1
+                    outs.add(explore.h64(r1.out))
+                    if r1.panic or r1.out != r2.out:
+                        if not viols:
+                            v = Violation("multi-line-record-differs", "a record of %d lines (%r) is rendered differently "
+                                          "from %d records of one line: %r vs %r"
+                                          % (k, text, k, (r1.panic or r1.out.decode("utf-8", "replace"))[:300],
+                                             r2.out.decode("utf-8", "replace")[:300]),
+                                          (multi + tail).split(b"\n")[:-1], None, r2.out[:400], r1.out[:400])
+                            v.args = args
+                            v.config_label = "multiline," + label
+                            viols.append(v)
+    drv.drop(cid)
+    return {"n": n, "violations": viols, "outs": outs}
+
+
+# ---------------------------------------------------------------------------------------------
 # E4: through `delta git grep ...` / `delta rg ...` with stub executables
 
 def stub_dir():
@@ -359,6 +430,10 @@ def main(tier):
         tasks.append(("coloured," + " ".join(cw), "coloured", cw, {}, small, depth))
     # sort big first
     res = explore.pmap(run_task, [t + (deadline,) for t in tasks])
+    mres = explore.pmap(run_multiline, [(lbl, ov, [2] if tier == "quick" else [2, 3], deadline)
+                                        for lbl, ov in (("default", {}), ("classic", {"grep-output-type": "classic"}),
+                                                        ("navigate", {"navigate": True}), ("hyperlinks", {"hyperlinks": True}),
+                                                        ("ln", {"line-numbers": True}), ("syntax", {"syntax-theme": "Monokai Extended"}))])
     # conformance
     stream = b"".join(h.coloured() + b"\n" for h in small[:6]) + b"--\n" + small[7].coloured() + b"\n"
     jstream = b"".join(h.rgjson() + b"\n" for h in small[:5] if h.kind != "header")
@@ -391,13 +466,19 @@ def main(tier):
             samples.append({"config": r["label"], "history": r["samples"][0]})
         per[r["label"]] = {"states": r["states"], "transitions": r["transitions"]}
         viols.extend(r["violations"])
+    nml = sum(r["n"] for r in mres)
+    mouts = set()
+    for r in mres:
+        viols.extend(r["violations"])
+        mouts |= r["outs"]
     best = {}
     for v in viols:
         cur = best.get(v.klass)
         if cur is None or len(v.history or []) < len(cur.history or []):
             best[v.klass] = v
     viols = sorted(best.values(), key=lambda v: v.klass)
-    cov = {"states": states, "transitions": transitions, "traces_validated_against_impl": renders + nconf,
+    cov = {"states": states, "transitions": transitions, "traces_validated_against_impl": renders + nconf + 2 * nml,
+           "multi_line_record_pairs": nml, "multi_line_distinct_outputs": len(mouts),
            "samples": samples or [{"note": "depth < 3"}], "renders_of_real_code": renders,
            "stub_conformance_runs": nconf, "max_depth": maxd, "distinct_snapshots": len(snaps),
            "distinct_step_outputs": len(outs), "per_search": per, "caps_hit": caps, "exhaustive": not caps}
